@@ -9,7 +9,13 @@
     new cached minimum after an append (`min(h.min_diff, diff)`);
   * `_update_diffs`: the two position guards (`i > 0`, `i < len(h.bins) - 1`), the stale-minimum test, the lowering
     test and the stored gap;
-  * `_trim`: the positions it reads, pops (bins and cache) and refreshes (`i`, `i + 1`, `i`, `i`).
+  * `_trim`: the positions it reads, pops (bins and cache) and refreshes (`i`, `i + 1`, `i`, `i`);
+  * the six tests on the optional gap cache (`h.diffs is not None` in `_update_diffs`, twice in `_trim`, twice in `update`;
+    `h.diffs is None` in `_search_in_place_index`) as tests over `Option (List K)` — `is not None`, `is None`, bare
+    truthiness (`None` *and the empty list* are false: what `load()` of a single bin creates), and/or/not;
+  * `update`: the test that separates the append from the insert (`index == -1`); `merge`: which component of a bin is
+    handed to `update` as the value and which as the count; `_compute_diffs`: the gap it caches; `load`: the test that
+    decides between `min(diffs)` and infinity; `_trim` without a cache: the position and the gap it scans.
 `Model/Distogram.lean` is the skeleton over them; `Lemmas/Distogram.lean` proves the `*_def` equations that give each one
 the meaning the proofs use, so a changed test, operator, offset or statement chain breaks a named lemma *and* is followed
 by the executable model.  A statement that is not found in the expected shape degrades to the pinned text, never alarms.
@@ -43,6 +49,21 @@ PIN = {
     "trim.pop_bin": "(i + 1)",
     "trim.pop_diff": "i",
     "trim.refresh": "i",
+    "cache.ud": "d.isSome",
+    "cache.trim_pick": "d.isSome",
+    "cache.trim_keep": "d.isSome",
+    "cache.append": "d.isSome",
+    "cache.insert": "d.isSome",
+    "cache.search_missing": "d.isNone",
+    "update.is_append": "(index = (-1))",
+    "merge.value": "value",
+    "merge.count": "counts",
+    "compute.gap": "(v2 - v1)",
+    "load.has_diffs": "(listTruthy d)",
+    "load.turns": "(len - 1)",
+    "load.no_diffs": "none",
+    "trim.scan_idx": "(i - 1)",
+    "trim.scan_gap": "(cur - prev)",
 }
 
 
@@ -81,6 +102,33 @@ def opt_bool(node, env):
     if ast.unparse(node) in env:  # bare truthiness: None and zero are false
         return "(optTruthy %s)" % env[ast.unparse(node)]
     raise Untranslatable("option test: %s" % ast.unparse(node))
+
+
+def cache_bool(node, names=("h.diffs",), var="d", truthy="cacheTruthy"):
+    """A Python test on the optional gap cache -> Bool over `Option (List K)`: `is not None`, `is None`, bare truthiness
+    (None and the EMPTY list are false), and/or/not."""
+    if isinstance(node, ast.BoolOp):
+        j = " && " if isinstance(node.op, ast.And) else " || "
+        return "(" + j.join(cache_bool(v, names, var, truthy) for v in node.values) + ")"
+    if isinstance(node, ast.UnaryOp) and isinstance(node.op, ast.Not):
+        return "(!%s)" % cache_bool(node.operand, names, var, truthy)
+    if (isinstance(node, ast.Compare) and len(node.ops) == 1 and isinstance(node.comparators[0], ast.Constant)
+            and node.comparators[0].value is None and ast.unparse(node.left) in names and truthy == "cacheTruthy"):
+        if isinstance(node.ops[0], ast.IsNot):
+            return "%s.isSome" % var
+        if isinstance(node.ops[0], ast.Is):
+            return "%s.isNone" % var
+    if ast.unparse(node) in names:
+        return "(%s %s)" % (truthy, var)
+    raise Untranslatable("cache test: %s" % ast.unparse(node))
+
+
+def is_cache_test(node):
+    try:
+        cache_bool(node)
+        return True
+    except Untranslatable:
+        return False
 
 
 def body_of(f):
@@ -174,10 +222,10 @@ def generate(o):
 
     def append_min_diff():
         f = fn("update")
-        g = [n for n in ast.walk(f) if isinstance(n, ast.If) and nows(n.test) == "index==-1"]
-        blk = one(g, "update: if index == -1").body
-        inner = [n for n in blk if isinstance(n, ast.If) and nows(n.test) == "h.diffsisnotNone" and not n.orelse]
-        st = one(inner, "update: append: if h.diffs is not None").body
+        g = [n for n in ast.walk(f) if isinstance(n, ast.If) and n.body and nows(n.body[0]).startswith("h.bins.append(")]
+        blk = one(g, "update: if index == -1: h.bins.append(...)").body
+        inner = [n for n in blk if isinstance(n, ast.If) and is_cache_test(n.test) and not n.orelse]
+        st = one(inner, "update: append: if <h.diffs>").body
         if [nows(s) for s in st[:2]] != ["diff=h.bins[-1][0]-h.bins[-2][0]", "h.diffs.append(diff)"] or len(st) != 3:
             raise KeyError("update: diff = last - previous; h.diffs.append(diff); h.min_diff = ...")
         a = st[2]
@@ -191,7 +239,7 @@ def generate(o):
     # ---- _update_diffs
     def ud_blocks():
         b = body_of(fn("_update_diffs"))
-        outer = one([n for n in b if isinstance(n, ast.If) and nows(n.test) == "h.diffsisnotNone"], "_update_diffs: if h.diffs is not None")
+        outer = one([n for n in b if isinstance(n, ast.If) and is_cache_test(n.test)], "_update_diffs: if <h.diffs>")
         blocks = {}
         for n in outer.body:
             if not isinstance(n, ast.If) or n.orelse:
@@ -241,8 +289,8 @@ def generate(o):
             raise KeyError("_trim: h.bins.pop(i + 1)")
         if nows(store.targets[0].slice) != nows(read.value.slice):
             raise KeyError("_trim: the merged bin is stored where the first one was read")
-        tail = one([s for s in st if isinstance(s, ast.If) and nows(s.test) == "h.diffsisnotNone" and not s.orelse and st.index(s) > st.index(store)],
-                   "_trim: if h.diffs is not None: (after the merge)").body
+        tail = one([s for s in st if isinstance(s, ast.If) and is_cache_test(s.test) and not s.orelse and st.index(s) > st.index(store)],
+                   "_trim: if <h.diffs>: (after the merge)").body
         if len(tail) != 3 or nows(tail[2]) != "h.min_diff=min(h.diffs)":
             raise KeyError("_trim: h.diffs.pop(i); _update_diffs(h, i); h.min_diff = min(h.diffs)")
         dp, ud = tail[0], tail[1]
@@ -282,6 +330,166 @@ def generate(o):
     v["inplace.stored"] = o.item("distogram.ops.inplace.stored",
                                  lambda: stored("_trim_in_place", {"stored_value": "sv", "current_value": "sv", "new_value": "nv"}, True), PIN["inplace.stored"])
 
+    # ---- the tests on the optional gap cache (`is not None` / `is None` / truthiness: an EMPTY cache is not None)
+    def cache_ud():
+        b = body_of(fn("_update_diffs"))
+        return cache_bool(one([n for n in b if isinstance(n, ast.If) and is_cache_test(n.test)], "_update_diffs: if <h.diffs>").test)
+
+    def trim_turn():
+        f = fn("_trim")
+        return one([n for n in body_of(f) if isinstance(n, (ast.While, ast.If))], "_trim: guard statement").body
+
+    def cache_trim_pick():
+        st = trim_turn()
+        g = one([s for s in st if isinstance(s, ast.If) and is_cache_test(s.test) and s.orelse], "_trim: if <h.diffs>: i = ... else: ...")
+        if [nows(x) for x in g.body] != ["i=h.diffs.index(h.min_diff)"]:
+            raise KeyError("_trim: i = h.diffs.index(h.min_diff)")
+        return g
+
+    def cache_trim_keep():
+        st = trim_turn()
+        pick = cache_trim_pick()
+        g = one([s for s in st if isinstance(s, ast.If) and is_cache_test(s.test) and not s.orelse and st.index(s) > st.index(pick)],
+                "_trim: if <h.diffs>: (after the merge)")
+        return cache_bool(g.test)
+
+    def update_split():
+        top = body_of(fn("update"))
+        g = one([n for n in top if isinstance(n, ast.If) and n.orelse and n.body and nows(n.body[0]).startswith("h.bins.append(")],
+                "update: if index == -1: h.bins.append(...) else: h.bins.insert(...)")
+        if not (g.orelse and nows(g.orelse[0]).startswith("h.bins.insert(index,")):
+            raise KeyError("update: else: h.bins.insert(index, ...)")
+        if nows(g.body[0]) != "h.bins.append((_caster(value),count))" or nows(g.orelse[0]) != "h.bins.insert(index,(_caster(value),count))":
+            raise KeyError("update: the appended / inserted bin is (_caster(value), count)")
+        return g
+
+    def cache_in(block, what):
+        return cache_bool(one([n for n in block if isinstance(n, ast.If) and is_cache_test(n.test) and not n.orelse], what).test)
+
+    def cache_insert():
+        blk = update_split().orelse
+        g = one([n for n in blk if isinstance(n, ast.If) and is_cache_test(n.test) and not n.orelse], "update: insert: if <h.diffs>")
+        if [nows(x) for x in g.body] != ["h.diffs.insert(index,0)", "_update_diffs(h,index)"]:
+            raise KeyError("update: h.diffs.insert(index, 0); _update_diffs(h, index)")
+        return cache_bool(g.test)
+
+    def cache_search():
+        b = body_of(fn("_search_in_place_index"))
+        g = one([n for n in b if isinstance(n, ast.If) and is_cache_test(n.test)], "_search_in_place_index: if <h.diffs>")
+        if g.orelse or [nows(x) for x in g.body] != ["h.diffs=_compute_diffs(h)"] or b.index(g) != 0:
+            raise KeyError("_search_in_place_index: if h.diffs is None: h.diffs = _compute_diffs(h) (first statement)")
+        return cache_bool(g.test)
+
+    v["cache.ud"] = o.item("distogram.ops.cache.ud", cache_ud, PIN["cache.ud"])
+    v["cache.trim_pick"] = o.item("distogram.ops.cache.trim_pick", lambda: cache_bool(cache_trim_pick().test), PIN["cache.trim_pick"])
+    v["cache.trim_keep"] = o.item("distogram.ops.cache.trim_keep", cache_trim_keep, PIN["cache.trim_keep"])
+    v["cache.append"] = o.item("distogram.ops.cache.append", lambda: cache_in(update_split().body, "update: append: if <h.diffs>"), PIN["cache.append"])
+    v["cache.insert"] = o.item("distogram.ops.cache.insert", cache_insert, PIN["cache.insert"])
+    v["cache.search_missing"] = o.item("distogram.ops.cache.search_missing", cache_search, PIN["cache.search_missing"])
+
+    # ---- update: append or insert
+    v["update.is_append"] = o.item("distogram.ops.update.is_append", lambda: to_lean(update_split().test, {"index": "index"}, mode="int"), PIN["update.is_append"])
+
+    # ---- merge: for value, counts in h2.bins: h = update(h, value, counts)
+    def merge_args():
+        b = body_of(fn("merge"))
+        loop = one([n for n in b if isinstance(n, ast.For)], "merge: for value, counts in h2.bins")
+        if not (isinstance(loop.target, ast.Tuple) and len(loop.target.elts) == 2 and all(isinstance(t, ast.Name) for t in loop.target.elts)
+                and nows(loop.iter) == "h2.bins" and not loop.orelse and len(loop.body) == 1):
+            raise KeyError("merge: for value, counts in h2.bins: one statement")
+        names = [t.id for t in loop.target.elts]
+        st = loop.body[0]
+        if not (isinstance(st, ast.Assign) and nows(st.targets[0]) == "h" and isinstance(st.value, ast.Call) and nows(st.value.func) == "update"):
+            raise KeyError("merge: h = update(h, value, counts)")
+        call = st.value
+        args = {"value": None, "count": None}
+        pos = [nows(a) for a in call.args]
+        if not pos or pos[0] != "h" or len(pos) > 3:
+            raise KeyError("merge: update(h, ...)")
+        for key, a in zip(("value", "count"), call.args[1:]):
+            args[key] = a
+        for kw in call.keywords:
+            if kw.arg not in args or args[kw.arg] is not None:
+                raise KeyError("merge: update(h, value, count)")
+            args[kw.arg] = kw.value
+        if args["value"] is None or args["count"] is None:
+            raise KeyError("merge: update(h, value, count)")
+        env = {names[0]: "value", names[1]: "counts"}
+        before = b[: b.index(loop)]
+        if not any(nows(x) == "h=h1" for x in before) or not (isinstance(b[-1], ast.Return) and nows(b[-1].value) == "h"):
+            raise KeyError("merge: h = h1 ... return h")
+        return field(args["value"], env), field(args["count"], env)
+
+    v["merge.value"] = o.item("distogram.ops.merge.value", lambda: merge_args()[0], PIN["merge.value"])
+    v["merge.count"] = o.item("distogram.ops.merge.count", lambda: merge_args()[1], PIN["merge.count"])
+
+    # ---- _compute_diffs: diffs = [v2 - v1 for (v1, _), (v2, _) in zip(h.bins[:-1], h.bins[1:])]; h.min_diff = min(diffs)
+    def compute_gap():
+        b = body_of(fn("_compute_diffs"))
+        if len(b) != 3 or nows(b[1]) != "h.min_diff=min(diffs)" or nows(b[2]) != "returndiffs":
+            raise KeyError("_compute_diffs: diffs = [...]; h.min_diff = min(diffs); return diffs")
+        a = b[0]
+        if not (isinstance(a, ast.Assign) and nows(a.targets[0]) == "diffs" and isinstance(a.value, ast.ListComp) and len(a.value.generators) == 1):
+            raise KeyError("_compute_diffs: diffs = [... for ... in zip(h.bins[:-1], h.bins[1:])]")
+        g = a.value.generators[0]
+        if g.ifs or nows(g.iter) != "zip(h.bins[:-1],h.bins[1:])":
+            raise KeyError("_compute_diffs: zip(h.bins[:-1], h.bins[1:])")
+        t = g.target
+        if not (isinstance(t, ast.Tuple) and len(t.elts) == 2 and all(isinstance(e, ast.Tuple) and len(e.elts) == 2 and isinstance(e.elts[0], ast.Name) for e in t.elts)):
+            raise KeyError("_compute_diffs: (v1, _), (v2, _)")
+        return field(a.value.elt, {t.elts[0].elts[0].id: "v1", t.elts[1].elts[0].id: "v2"})
+
+    v["compute.gap"] = o.item("distogram.ops.compute.gap", compute_gap, PIN["compute.gap"])
+
+    # ---- load: if dgram.diffs: dgram.min_diff = min(dgram.diffs) else: dgram.min_diff = float("inf")
+    def load_has_diffs_stmt():
+        b = body_of(fn("load"))
+        g = one([n for n in b if isinstance(n, ast.If) and n.orelse and [nows(x) for x in n.body] == ["dgram.min_diff=min(dgram.diffs)"]],
+                "load: if dgram.diffs: dgram.min_diff = min(dgram.diffs) else: ...")
+        if len(g.orelse) != 1 or not isinstance(g.orelse[0], ast.Assign) or nows(g.orelse[0].targets[0]) != "dgram.min_diff":
+            raise KeyError("load: else: dgram.min_diff = ...")
+        if not any(nows(x) == "dgram.diffs=[]" for x in b[: b.index(g)]):
+            raise KeyError("load: dgram.diffs = []")
+        return g
+
+    def load_no_diffs():
+        e = load_has_diffs_stmt().orelse[0].value
+        if nows(e) in ("float('inf')", "math.inf", "numpy.inf", "None"):
+            return "none"  # larger than every gap
+        return "(some %s)" % field(e, {})
+
+    def load_turns():
+        b = body_of(fn("load"))
+        loop = one([n for n in b if isinstance(n, ast.For)], "load: for i in range(len(dgram.bins) - 1)")
+        if not (nows(loop.target) == "i" and isinstance(loop.iter, ast.Call) and nows(loop.iter.func) == "range" and len(loop.iter.args) == 1
+                and not loop.orelse and len(loop.body) == 2 and nows(loop.body[1]) == "dgram.diffs.append(diff)"):
+            raise KeyError("load: for i in range(n): diff = ...; dgram.diffs.append(diff)")
+        return to_lean(loop.iter.args[0], {"len(dgram.bins)": "len", "len(bins)": "len"}, mode="int")
+
+    v["load.turns"] = o.item("distogram.ops.load.turns", load_turns, PIN["load.turns"])
+    v["load.has_diffs"] = o.item("distogram.ops.load.has_diffs",
+                                 lambda: cache_bool(load_has_diffs_stmt().test, names=("dgram.diffs",), var="d", truthy="listTruthy"), PIN["load.has_diffs"])
+    v["load.no_diffs"] = o.item("distogram.ops.load.no_diffs", load_no_diffs, PIN["load.no_diffs"])
+
+    # ---- _trim without a cache: diffs = [(i - 1, b[0] - h.bins[i - 1][0]) for i, b in enumerate(h.bins[1:], start=1)]; i, _ = min(diffs, key=itemgetter(1))
+    def trim_scan():
+        g = cache_trim_pick()
+        if len(g.orelse) != 2 or nows(g.orelse[1]) not in ("i,_=min(diffs,key=itemgetter(1))", "(i,_)=min(diffs,key=itemgetter(1))"):
+            raise KeyError("_trim: i, _ = min(diffs, key=itemgetter(1))")
+        a = g.orelse[0]
+        if not (isinstance(a, ast.Assign) and nows(a.targets[0]) == "diffs" and isinstance(a.value, ast.ListComp) and len(a.value.generators) == 1):
+            raise KeyError("_trim: diffs = [(i - 1, gap) for i, b in enumerate(h.bins[1:], start=1)]")
+        gen = a.value.generators[0]
+        if gen.ifs or nows(gen.iter) != "enumerate(h.bins[1:],start=1)" or nows(gen.target).strip("()") != "i,b":
+            raise KeyError("_trim: for i, b in enumerate(h.bins[1:], start=1)")
+        e = a.value.elt
+        if not (isinstance(e, ast.Tuple) and len(e.elts) == 2):
+            raise KeyError("_trim: (position, gap)")
+        return to_lean(e.elts[0], {"i": "i"}, mode="int"), field(e.elts[1], {"b[0]": "cur", "h.bins[i - 1][0]": "prev"})
+
+    v["trim.scan_idx"] = o.item("distogram.ops.trim.scan_idx", lambda: trim_scan()[0], PIN["trim.scan_idx"])
+    v["trim.scan_gap"] = o.item("distogram.ops.trim.scan_gap", lambda: trim_scan()[1], PIN["trim.scan_gap"])
+
     # ---- emit
     hdr = HEADER + '''import OrsoVerif.Generated.DistogramExpr
 /-!
@@ -308,13 +516,23 @@ def optTruthy (x : Option K) : Bool :=
   | some v => !(eqK v 0)
   | none => false
 
+/-- Python's truthiness of a list: the empty list is false. -/
+def listTruthy (d : List K) : Bool := !d.isEmpty
+
+/-- Python's truthiness of the optional gap cache (`h.diffs`): `None` AND the empty list are false — `load()` of a
+histogram with a single bin creates the empty list, which `is not None`. -/
+def cacheTruthy (d : Option (List K)) : Bool :=
+  match d with
+  | some (_ :: _) => true
+  | _ => false
+
 '''
     defs = []
 
     def d(doc, name, params, pty, ty, key, prop=False):
         text = str(v[key])
         free = set(re.findall(r"[A-Za-z_][A-Za-z0-9_]*", re.sub(r"\.isSome|\.isNone", "", text))) - {
-            "eqK", "if", "then", "else", "pyMin", "pyMax", "optTruthy", "true", "false"}
+            "eqK", "if", "then", "else", "pyMin", "pyMax", "optTruthy", "cacheTruthy", "listTruthy", "true", "false", "none", "some"}
         if not free <= set(params):
             o.degraded.append("distogram.ops.%s (uses %s)" % (key, sorted(free - set(params))))
             text = PIN[key]
@@ -344,4 +562,20 @@ def optTruthy (x : Option K) : Bool :=
     d("`_trim`: the bin that is popped", "trimPopBin", ["i"], "Nat", "Nat", "trim.pop_bin")
     d("`_trim`: the cached difference that is popped", "trimPopDiff", ["i"], "Nat", "Nat", "trim.pop_diff")
     d("`_trim`: the position handed to `_update_diffs`", "trimRefresh", ["i"], "Nat", "Nat", "trim.refresh")
+    C = "Option (List K)"
+    d("`_update_diffs`: the cache is maintained (`d` = `h.diffs`)", "udCache", ["d"], C, "Bool", "cache.ud")
+    d("`_trim`: the pair to merge is looked up in the cache", "trimCachePick", ["d"], C, "Bool", "cache.trim_pick")
+    d("`_trim`: the cache is maintained after the merge", "trimCacheKeep", ["d"], C, "Bool", "cache.trim_keep")
+    d("`update`: the cache is extended by an append", "appendCache", ["d"], C, "Bool", "cache.append")
+    d("`update`: the cache is extended by an insert", "insertCache", ["d"], C, "Bool", "cache.insert")
+    d("`_search_in_place_index`: the cache has to be computed first", "searchNoCache", ["d"], C, "Bool", "cache.search_missing")
+    d("`update`: the new bin is appended (`index` is Python's: -1 for a value not below the last centre)", "isAppend", ["index"], "Int", "Prop", "update.is_append", True)
+    d("`merge`: what is handed to `update` as the value, for a bin `(value, counts)` of the right operand", "mergeValue", ["value", "counts"], "K", "K", "merge.value")
+    d("`merge`: what is handed to `update` as the count", "mergeCount", ["value", "counts"], "K", "K", "merge.count")
+    d("`_compute_diffs`: the cached gap of two adjacent centres `v1`, `v2`", "computeGap", ["v1", "v2"], "K", "K", "compute.gap")
+    d("`load`: the cached minimum is `min(diffs)` (else infinity)", "loadHasDiffs", ["d"], "List K", "Bool", "load.has_diffs")
+    d("`load`: the cached minimum of a histogram without a gap (`none` = infinity)", "loadNoDiffs", [], "Option K", "Option K", "load.no_diffs")
+    d("`load`: the number of cached differences it computes for `len` bins (`range(len(dgram.bins) - 1)`)", "loadTurns", ["len"], "Int", "Int", "load.turns")
+    d("`_trim` without a cache: the position recorded for the pair ending at bin `i`", "trimScanIdx", ["i"], "Int", "Int", "trim.scan_idx")
+    d("`_trim` without a cache: the gap recorded for two adjacent centres", "trimScanGap", ["prev", "cur"], "K", "K", "trim.scan_gap")
     o.files["DistogramOps.lean"] = hdr + "\n".join(defs) + "\nend Gen.DistogramOps\n"
